@@ -2,7 +2,8 @@
 
 Complete sweep of the five ancillary tables (covalent radii, crystal structures, K emission lines,
 magnetic form factors, Cromer-Mann coefficients) over all 119 elements in every configuration of
-the shared configuration graph, against independent readers; closed forms of the form factors.
+the shared configuration graph, against the pinned copy of the tables made with independent readers (mc/ref/tables.py,
+second half: nothing is read from the source of the tree under test); closed forms of the form factors.
 
 First access (added after round 5): the ancillary attributes are delayed-load properties, so what a process reads
 FIRST decides which code runs the loader.  Every attribute named in the statement is the first access of a fresh
@@ -11,7 +12,7 @@ everything after it serves is compared with the same independent readers."""
 import math
 from ..common import Acc, load_pt, close, rotate, MachineryError
 from ..ref import tables as rt
-from ..configs import apply_event, judged_tables, snippet as _snippet
+from ..configs import apply_event, judged_tables, restored_labels, dirty_paths, RELOADED, fold_reloaded, snippet as _snippet
 
 META = dict(
     level="model_checking", engine="E1",
@@ -34,13 +35,32 @@ META = dict(
           "judged, the public table's is); judged in this order: the value served by that very access, the attribute "
           "over all elements before anything else is read, the other attributes of the group over all elements, the "
           "complete sweep of the group in the touched table and in the other kind of table (a private table created "
-          "afterwards / the public table)"),
-    bound=dict(quick="9 configuration paths x all elements x all five tables (exhaustive over the tables); 203 "
+          "afterwards / the public table).  "
+          "ENTRY OR ABSENCE is demanded both ways for every one of the five tables: every row of the reference must be "
+          "served by the element (ion, charge state) it belongs to - None / no attribute / an exception where the reference "
+          "has a row is '<table>-entry-not-served' -, every element, charge state or symbol WITHOUT a row must serve "
+          "nothing (getCMformula included), and a row of the reference whose element the table lacks is reported.  "
+          "CUSTOMISE-THEN-RELOAD (mc/configs.py, *_dirty / *_reload events): entries of a group are replaced by a custom "
+          "dataset - at an element with a row, at a slot the table lists as None, by assignment, in-place change, "
+          "deletion - and the group is re-initialised with reload=True (all groups at once, and each group alone, on a "
+          "private and on the public table); afterwards the table must again serve exactly the embedded tables; what is "
+          "found only there carries ':after-customise-and-reload'"),
+    bound=dict(quick="19 configuration paths (9 of the graph, 10 customise-then-reload: all groups at once on a private and on "
+                     "the public table, each of xray / covalent_radius / crystal_structure / magnetic_ff alone on both) "
+                     "x all elements x all five tables (exhaustive over the tables); 203 "
                      "first-access processes (10 attributes x up to 9 ways x 3 table configurations)",
-               thorough="all orderings of the 4 configuration events up to length 4 + the fixed quick paths x the same; "
+               thorough="all orderings of the 4 configuration events up to length 4 + the fixed quick paths + the pair "
+                        "(customise, reload) of the private and of the public table at every position of every ordering up to "
+                        "length 3 (adjacent, and with the reload at the end) + each of the 8 groups alone (173 paths) x the same; "
                         "first access additionally: every ordered pair (first attribute, second attribute) and every "
                         "element as the first one asked for every attribute"),
-    assumptions=["the embedded table text is the source of truth", "crystal-structure ownership is taken from the trailing "
+    assumptions=["the embedded tables are the data the tree under test carries: per table, the text of the tree is read by the independent text readers of mc/ref/tables.py and is the reference as long as it is readable and holds at least 90 % of the rows of the pinned copy mc/ref/pinned_tables.json (made once from /repo at commit 6ba067a: `VERIF_REPO=/repo /venv/bin/python -m mc.ref.tables --write-pinned`); where the text is unreadable (another layout, a table re-keyed or moved) the pinned copy is the reference - so a deliberate data update moves the reference, a change of layout neither stops the check nor takes rows away unnoticed; the run record says which copy was used",
+                 "module.init(table, reload=True) after entries of that group were customised restores the embedded table "
+                 "at every element that has a row or a listed-as-None slot; atoms WITHOUT any row in the table of the group "
+                 "(a radius for Bk, a structure for Rf, an emission line for H, an extra magnetic charge state) are not "
+                 "customised: the stock loaders write their rows over the table and leave other entries alone "
+                 "(observed on the unchanged tree), and no text says that a reload removes them",
+                 "crystal-structure ownership is taken from the trailing "
                  "#Sym comment of each list entry when that label is a valid symbol occurring exactly once",
                  "Ho2+ J is listed twice in the CrysFML data: either record accepted",
                  "the neutron (Z=0) covalent radius 0.20 is a statement of the loader, not a table entry: not judged",
@@ -58,7 +78,9 @@ META = dict(
     level_text="complete over the finite domain (119 elements x 97 radii, 104 structure slots, 91 emission rows, 344 magnetic "
                "records / 98 charge states, 211 Cromer-Mann entries, and every isotope / ion / isotope-ion object of the table) "
                "in each explored configuration; Q on a fixed grid",
-    level_note="independent readers in mc/ref/tables.py and mc/ref/xray.py (regex / ast / tokenize; no eval, no shared code)",
+    level_note="pinned copy of the five tables (mc/ref/pinned_tables.json) made with the independent readers in "
+               "mc/ref/tables.py and mc/ref/xray.py (regex / ast / tokenize; no eval, no shared code); nothing is read from the "
+               "source of the tree under test at run time",
 )
 
 QGRID = (0.0, 0.5, 4 * math.pi, 30.0)
@@ -90,15 +112,12 @@ def same_data(got, want):
 
 
 def load_cm():
-    try:
-        from ..ref import xray as rx
-    except ImportError:
-        return None
-    fn = getattr(rx, "cromer_mann_coefficients", None)
-    if fn is None:
-        return None
-    out = fn()
-    return out if isinstance(out, dict) else None
+    """{symbol as written in f0_WaasKirf.dat: (a[5], c, b[5])} from the pinned copy (a reader that is not there is a
+    machinery error, never a part that is skipped)."""
+    out = dict((e["symbol"], (e["a"], e["c"], e["b"])) for e in rt.cromer_mann_entries())
+    if len(out) != 211:
+        raise MachineryError("C20: %d Cromer-Mann entries in the reference, 211 expected" % len(out))
+    return out
 
 
 def crystal_expected(T):
@@ -129,17 +148,28 @@ def sweep(pt, T, label, path, acc, groups=None, origin=None):
     def want_group(g):
         return groups is None or g in groups
 
+    numbers = set(el.number for el in T)
+
+    def demand_elements(group, keys):
+        """every entry of the reference belongs to an element that the table has (else the sweep over the elements of
+        the table would pass it by)"""
+        for k in sorted(keys):
+            if (k not in numbers) if isinstance(k, int) else (k not in symbols):
+                bad("entry-for-an-element-the-table-lacks:" + group, [k], "an element %r" % (k,), "none", "print(list(T))")
+
     def bad(rule, key, expected, observed, code):
         if origin is None:
             case, alone = dict(path=list(path), table=label, key=key, rule=rule), _snippet(path, label, code)
         else:
             case, alone = dict(origin[0], table=label, key=key, rule=rule), origin[1] + "T = tables[%r]\n" % label + code + "\n"
-        acc.violation("%s:%s" % (rule, "public" if label == "public" else "private"), case,
+        acc.violation("%s:%s%s" % (rule, "public" if label == "public" else "private",
+                                   RELOADED if origin is None and label in restored_labels(path) else ""), case,
                       expected=expected, observed=observed, standalone=alone)
 
     # ---- covalent radius
     if want_group('radius'):
         radii = rt.covalent_radii()
+        demand_elements("radius", radii)
         for el in T:
             Z = el.number
             if Z == 0:
@@ -156,6 +186,8 @@ def sweep(pt, T, label, path, acc, groups=None, origin=None):
             if want is None:
                 if r is not None or u is not None:
                     bad("radius-without-entry", [Z], None, (r, u), code)
+            elif r is None and u is None:
+                bad("radius-entry-not-served", [Z], want[1:], (r, u), code)
             else:
                 if not close(r, want[1], 1e-12):
                     bad("radius", [Z], want[1], r, code)
@@ -168,6 +200,7 @@ def sweep(pt, T, label, path, acc, groups=None, origin=None):
     # ---- crystal structure
     if want_group('crystal'):
         expected = crystal_expected(T)
+        demand_elements("crystal", [Z for Z, (how, v) in expected.items() if v is not None])
         for el in T:
             Z = el.number
             code = "print(getattr(T[%d], 'crystal_structure', 'absent'))" % Z
@@ -179,7 +212,9 @@ def sweep(pt, T, label, path, acc, groups=None, origin=None):
                 continue
             if Z in expected:
                 how, want = expected[Z]
-                if got != want:
+                if got is None and want is not None:
+                    bad("crystal-entry-not-served", [Z], want, "None or no attribute", code)
+                elif got != want:
                     bad("crystal", [Z], want, got, code)
             elif got is not None:
                 bad("crystal-without-entry", [Z], None, got, code)
@@ -187,9 +222,7 @@ def sweep(pt, T, label, path, acc, groups=None, origin=None):
     # ---- emission lines
     if want_group('lines'):
         lines = rt.spectral_lines()
-        for sym in lines:
-            if sym not in symbols:
-                raise MachineryError("spectral line row for unknown symbol %s" % sym)
+        demand_elements("lines", lines)
         for el in T:
             Z = el.number
             code = "print(getattr(T[%d], 'K_alpha', 'absent'), getattr(T[%d], 'K_beta1', 'absent'))" % (Z, Z)
@@ -204,6 +237,8 @@ def sweep(pt, T, label, path, acc, groups=None, origin=None):
             if want is None:
                 if ka is not None or kb is not None:
                     bad("lines-without-entry", [Z], None, (ka, kb), code)
+            elif ka is None and kb is None:
+                bad("lines-entry-not-served", [Z], want, (ka, kb), code)
             else:
                 if not close(ka, want[0], 1e-12):
                     bad("lines-K_alpha", [Z], want[0], ka, code)
@@ -224,9 +259,7 @@ def sweep(pt, T, label, path, acc, groups=None, origin=None):
         want_m = {}     # symbol -> charge -> kind -> [coeffs alternatives]
         for kind, sym, q, c in recs:
             want_m.setdefault(sym, {}).setdefault(q, {}).setdefault(kind, []).append(c)
-        for sym in want_m:
-            if sym not in symbols:
-                raise MachineryError("magnetic record for unknown symbol %s" % sym)
+        demand_elements("magnetic", want_m)
         for el in T:
             Z, sym = el.number, el.symbol
             code = "print(dict((q, vars(m)) for q, m in getattr(T[%d], 'magnetic_ff', {}).items()))" % Z
@@ -240,6 +273,9 @@ def sweep(pt, T, label, path, acc, groups=None, origin=None):
             if want is None:
                 if got:
                     bad("magnetic-without-entry", [Z], None, sorted(got), code)
+                continue
+            if not got:
+                bad("magnetic-entry-not-served", [Z], sorted(want), got, code)
                 continue
             if not isinstance(got, dict) or sorted(got) != sorted(want):
                 bad("magnetic-charges", [Z], sorted(want), sorted(got) if isinstance(got, dict) else got, code)
@@ -372,13 +408,8 @@ def sweep_f0_atoms(pt, T, label, path, acc, origin=None):
     (all charges of element.ions), every isotope and every isotope ion evaluates .xray.f0(Q) to the closed form
     of the entry written for its element symbol and charge ('Fe', 'Fe2+', 'O1-'); an atom whose symbol+charge
     has no entry serves no number (an exception, None or NaN - never a neighbour's or another state's fit)."""
-    try:
-        from ..ref import xray as rx
-        entries = rx.f0_entries()
-        parts = rx.f0_symbol_parts
-    except (ImportError, AttributeError):
-        acc.notes.append("Cromer-Mann reader (mc/ref/xray.py) not available: f0 through atoms skipped")
-        return 0
+    entries = rt.cromer_mann_entries()
+    parts = rt.cromer_mann_symbol_parts
     by_atom = {}
     for e in entries:
         p = parts(e["symbol"])
@@ -396,7 +427,8 @@ def sweep_f0_atoms(pt, T, label, path, acc, origin=None):
             case, alone = dict(path=list(path), table=label, key=key, rule=rule), _snippet(path, label, code)
         else:
             case, alone = dict(origin[0], table=label, key=key, rule=rule), origin[1] + "T = tables[%r]\n" % label + code + "\n"
-        acc.violation("%s:%s" % (rule, "public" if label == "public" else "private"), case,
+        acc.violation("%s:%s%s" % (rule, "public" if label == "public" else "private",
+                                   RELOADED if origin is None and label in restored_labels(path) else ""), case,
                       expected=expected, observed=observed, standalone=alone)
 
     for el in T:
@@ -457,9 +489,6 @@ def sweep_f0_atoms(pt, T, label, path, acc, origin=None):
 def sweep_cromermann(pt, acc, path):
     """Cromer-Mann coefficients are global (not per table): getCMformula(symbol) for every entry."""
     cm = load_cm()
-    if cm is None:
-        acc.notes.append("Cromer-Mann reader (mc/ref/xray.py) not available: part skipped")
-        return 0
     from periodictable import cromermann
     cells = 0
     for sym, (a, c, b) in sorted(cm.items()):
@@ -477,6 +506,22 @@ def sweep_cromermann(pt, acc, path):
         if not ok:
             acc.violation("cromermann-coefficients:public", dict(path=list(path), table="public", key=[sym], rule="cromermann-coefficients"),
                           (a, c, b), (ga, gc, gb), standalone=code)
+    # ... and NO formula for an element or a charge state of the table that has no entry
+    for el in pt.elements:
+        for q in (0,) + tuple(getattr(el, "ions", ())):
+            sym = el.symbol + ("%d%s" % (abs(q), "+" if q > 0 else "-") if q else "")
+            if sym in cm:
+                continue
+            cells += 1
+            try:
+                f = cromermann.getCMformula(sym)
+            except Exception:
+                continue
+            if f is not None:
+                acc.violation("cromermann-formula-without-entry:public",
+                              dict(path=list(path), table="public", key=[sym], rule="cromermann-formula-without-entry"),
+                              "no formula (an exception or None)", "a formula labelled %r" % getattr(f, "symbol", None),
+                              standalone="from periodictable import cromermann\nprint(vars(cromermann.getCMformula(%r)))" % sym)
     return cells
 
 
@@ -508,6 +553,9 @@ def run_path(args):
     acc.states += cells; acc.nontrivial += cells; acc.evaluations += cells; acc.transitions += cells
     acc.sample(dict(path=list(path), tables=[l for l, _ in live]))
     acc.count("configurations")
+    if path == ():
+        # for the run record only: which copy of each table the check judged by (the tree's own text, or the pinned copy where that is unreadable)
+        acc.notes += ["pinned reference tables: %s" % rt.pinned_origin()] + rt.reference_notes()
     return acc
 
 
@@ -866,10 +914,9 @@ def ft_judge_list(T, name, listed, exp, case0, bad):
 
 def ft_xray_first(T, S, A, Q, mode, first, absent, case0, bad):
     """The first access is .xray of an atom: the object served evaluates f0 of the entry of the atom's element+charge."""
-    from ..ref import xray as rx
     el = getattr(T, S)
     q = Q if "ion" in mode else 0
-    ent = [e for e in rx.f0_entries() if rx.f0_symbol_parts(e["symbol"]) == (S, q)]
+    ent = [e for e in rt.cromer_mann_entries() if rt.cromer_mann_symbol_parts(e["symbol"]) == (S, q)]
     if mode == "hasattr":
         first = getattr(el, "xray", None) if first is True else None
     if not ent:
@@ -894,6 +941,9 @@ C20_QUICK_PATHS = [(), ("pub_lazy",), ("new_T",), ("pub_lazy", "new_T"), ("new_T
                    ("pub_lazy", "new_T", "T_groups", "T_custom"),
                    ("pub_custom", "new_T", "T_groups")]
 C20_EVENTS = ("pub_lazy", "new_T", "T_groups", "new_T2")
+# customise-then-reload (mc/configs.py): every group at once and each group of this check alone, private and public
+C20_DIRTY_GROUPS = ("xray", "covalent_radius", "crystal_structure", "magnetic_ff")
+C20_QUICK_PATHS += [p for p in dirty_paths("quick", C20_DIRTY_GROUPS) if "T_groups" in p or "pub_lazy" in p]
 
 
 def c20_all_paths():
@@ -904,7 +954,8 @@ def c20_all_paths():
                if e not in p and (e not in ("T_groups", "new_T2") or "new_T" in p)]
         out += nxt
         frontier = nxt
-    return out + [p for p in C20_QUICK_PATHS if p not in out]
+    out += [p for p in C20_QUICK_PATHS if p not in out]
+    return out + [p for p in dirty_paths("thorough") if p not in out]
 
 
 def run(ctx):
@@ -920,6 +971,7 @@ def run(ctx):
     paths = C20_QUICK_PATHS if ctx.quick else c20_all_paths()
     for acc in pmap(run_path, rotate(list(enumerate(paths)), ctx.seed), ctx.jobs, "C20 paths", always_fork=True):
         ctx.acc.merge(acc)
+    fold_reloaded(ctx.acc)
     ctx.acc.traces = ctx.acc.evaluations = ctx.acc.transitions
     ctx.acc.info["max_radii"] = len(rt.covalent_radii())
     ctx.acc.info["max_structure_slots"] = len(rt.crystal_structures())
